@@ -659,6 +659,9 @@ func normalise(ls *listSpec) {
 		if c.wrongKind == wJSONEquivalent && !(ls.enc == kJSON && ls.dir == dirMarshal) {
 			c.wrongKind = wTilde
 		}
+		if c.wrongKind == wInvalidByte && ls.enc == kJSON && ls.dir == dirMarshal {
+			c.wrongKind = wTilde // the JSON documents are built with json.Marshal, which replaces invalid bytes
+		}
 		if ls.shape == shByte && i >= 90 {
 			c.constraint = 2 - ls.dir // a uint8 case number stays below the "wrong" offset
 		}
